@@ -110,6 +110,7 @@ def _work(arg):
                 for with_summary in ((True,) if lang == 'groovy' else (True, False)):
                     for with_notes in ((True, False) if tier == 'thorough' else (False,)):
                         crashes = [None, 'trace'] + (['trace-first'] if tier == 'thorough' else [])
+                        crashes += ['trace:%d' % i for i in range(1, len(og.CRASH_VARIANTS[lang]))]
                         if lang == 'groovy' and nerr == 0:
                             crashes.append('stackoverflow')
                         for crash in crashes:
